@@ -1,5 +1,6 @@
 import CJ.Lemmas.DtlsListener
 import CJ.Lemmas.Heartbeat
+import CJ.Gen.C16Source
 /-!
 # C16 — DTLS sessions: same secret on both ends, right acceptor, faithful byte stream
 
@@ -541,5 +542,145 @@ example : ∀ e ∈ [Ev.tick, .data, .tick, .tick, .data, .tick, .tick, .tick], 
 example : 2 * 3 ≤ ticks [Ev.tick, .data, .tick, .tick, .data, .tick, .tick, .tick] := by decide
 
 end heartbeat
+
+/-! ## the source of `SCTPConn.Write` and of the handshake functions
+
+`CJ.Gen.C16Source` is regenerated from pkg/dtls (go/ast) on every run.  The flow-control bound above
+rests on what can wake a writer that waits in `Write`; the byte-stream clauses rest on the established
+connection not carrying a deadline of the handshake with it.  Both are structural facts of the source;
+they are stated about the regenerated tables, so a change of the source that invalidates them leaves
+an unproved obligation. -/
+section source
+open CJ.SctpConn CJ.Gen.C16Source
+
+def wakeOfName : String → Option Wake
+  | "closed" => some .closed
+  | "low" => some .low
+  | "timer" => some .timer
+  | "other" => some .other
+  | _ => none
+
+def exitOfName : String → Option Exit
+  | "fail" => some .fail
+  | "proceed" => some .proceed
+  | _ => none
+
+/-- the wait of `SCTPConn.Write` as read from the source -/
+def extractedShape : Option WaitShape :=
+  (writeWaitCases.mapM fun (c : String × String × String) => do some ((← wakeOfName c.2.1), (← exitOfName c.2.2))).map
+    fun cs => { loops := writeWaitLoops, cases := cs }
+
+/-- **The bound holds for every shape of the wait in which each way on to `stream.Write` is the
+buffered-amount-low notification or passes the `BufferedAmount()+len ≤ max` test again** — whatever
+other wake-up sources there are and whenever they fire. -/
+theorem buffered_bounded_any_wakeup (sh : WaitShape) (hs : sh.safe = true) (max : Nat) (ops : List GOp) :
+    (grun sh max ops).buffered ≤ max + max / 2 + ghbBytes ops := by
+  have h := (ginv_run sh hs max ops 0 {} (winv_init max)).2.1
+  simpa using h
+
+/-- the wait in the source is the one `wstep` models: an `if`, left by `Close` with an error and by
+the notification towards `stream.Write`, by nothing else -/
+theorem write_wait_is_modelled : extractedShape = some sourceShape := by decide
+
+/-- every path from the wait of the source to `stream.Write` is checked -/
+theorem write_wait_every_wakeup_checked : extractedShape.map (·.safe) = some true := by decide
+
+/-- what surrounds the wait: one `select`, entered exactly when `BufferedAmount()+len` exceeds the
+limit, inside the write mutex, behind the size check; the only thing behind it is the one
+`stream.Write`; the wake-up channel is made ready by the `OnBufferedAmountLow` callback alone, and the
+threshold of that callback is half the limit -/
+theorem write_wait_surroundings :
+    writeSelects = 1 ∧
+    writeWaitGuard = "s.stream.BufferedAmount()+writeLen > writeMaxBufferedAmount" ∧
+    "if writeLen > writeMaxBufferedAmount/2 { return 0, fmt.Errorf(\"write limit exceeded\") }" ∈ writeBeforeWait ∧
+    "s.writeMutex.Lock()" ∈ writeBeforeWait ∧
+    writeAfterWait = ["return s.stream.Write(b)"] ∧ writeStreamWrites = 1 ∧
+    wakeSenders = [("newSCTPConn", "send", "OnBufferedAmountLow")] ∧
+    lowThreshold = "writeMaxBufferedAmount / 2" ∧ 0 < writeMax := by decide
+
+/-- … so the bound holds for the wait as it is in the source, with any further wake-up source firing
+at any moment (the passing of time included) -/
+theorem buffered_bounded_source_wait (sh : WaitShape) (hsh : extractedShape = some sh) (ops : List GOp) :
+    (grun sh writeMax ops).buffered ≤ writeMax + writeMax / 2 + ghbBytes ops := by
+  have h := write_wait_every_wakeup_checked
+  rw [hsh] at h
+  exact buffered_bounded_any_wakeup sh (by simpa using h) writeMax ops
+
+/-- and for the source's wait time passing changes nothing at all: `fire` is the identity -/
+theorem time_does_not_release_writer (max : Nat) (s : WState) (w : Wake) :
+    (gstep sourceShape max s (.fire w)).1 = s := by
+  simp [gstep, fire_source]
+
+/-- the hypothesis of `buffered_bounded_any_wakeup` is needed: with a timer case that goes on to
+`stream.Write` without looking at the amount again, every stalled second adds a message -/
+example : (grun { loops := false, cases := [(.closed, .fail), (.low, .proceed), (.timer, .proceed)] } 100
+    [.op (.write 50), .op (.write 50), .op (.write 50), .fire .timer, .op (.write 50), .fire .timer,
+     .op (.write 50), .fire .timer]).buffered = 250 := by decide
+example : (grun { loops := true, cases := [(.closed, .fail), (.low, .proceed), (.timer, .proceed)] } 100
+    [.op (.write 50), .op (.write 50), .op (.write 50), .fire .timer, .op (.write 50), .fire .timer,
+     .op (.write 50), .fire .timer]).buffered = 100 := by decide
+
+/-! ### deadlines of the handshake
+
+`ClientWithContext`, `ServerWithContext` and `AcceptWithContext` put the context's deadline on a
+connection for the duration of the SCTP set-up.  A deadline that is still armed when the function
+returns the established connection ends that connection when the instant passes, whatever the two
+ends do: the byte stream would not be lossless.  `dlScan` walks the deadline calls of a function in
+source order and accepts iff at every successful return no deadline is armed.  A call on a wrapper
+obtained from `wrapSCTP(x, …)` reaches `x` (`SCTPConn.SetDeadline` / `SetWriteDeadline` forward to the
+connection handed to `newSCTPConn`: `wrapper_deadline_reaches_connection`); it does *not* reach a
+connection further down (a `dtls.Conn` keeps its deadlines to itself). -/
+
+def dlScan (armed : List (String × String)) (al : List (String × String)) :
+    List (String × String × String) → Bool
+  | [] => true
+  | (k, a, b) :: r =>
+    if k = "arm" then dlScan ((a, b) :: armed) al r
+    else if k = "clear" then
+      dlScan (armed.filter fun cm =>
+        !((cm.1 = a || ((a, cm.1) ∈ al && b ≠ "SetReadDeadline")) && (b = "SetDeadline" || b = cm.2))) al r
+    else if k = "wrap" then dlScan armed ((a, b) :: al) r
+    else if k = "retOk" then armed.isEmpty && dlScan armed al r
+    else if k = "retErr" then dlScan armed al r
+    else false
+
+/-- **No handshake deadline outlives the handshake**: in every function of the package that sets a
+deadline, every successful return is reached with all of them cleared on the connection they were
+set on. -/
+theorem handshake_deadlines_cleared : ∀ f ∈ deadlineEvents, dlScan [] [] f.2 = true := by decide
+
+/-- the table is about the three handshake functions (each arms a deadline and returns successfully) -/
+theorem handshake_deadline_table_covers :
+    ∀ n ∈ ["ClientWithContext", "ServerWithContext", "Listener.AcceptWithContext"],
+      ∃ f ∈ deadlineEvents, f.1 = n ∧ ("arm", "conn", "SetDeadline") ∈ f.2 ∧ ("retOk", "", "") ∈ f.2 := by decide
+
+theorem wrapper_deadline_reaches_connection :
+    ("SCTPConn.SetDeadline", "s.conn", "SetDeadline") ∈ deadlineForwards ∧
+    ("SCTPConn.SetWriteDeadline", "s.conn", "SetWriteDeadline") ∈ deadlineForwards ∧
+    wrappedConnArgs.length = 4 ∧ ∀ c ∈ wrappedConnArgs, c.2.2 = "conn" := by decide
+
+/-- **The context bounds the handshake and nothing else**: every use of a `context.Context` in the
+package hands it to the callee that performs (part of) the handshake, reads its deadline, or — in
+`acceptDTLSConn`, before any connection exists — waits for it; none sits in a function literal or a
+`go` statement that could outlive the call.  So nothing in pkg/dtls can act on a cancellation or expiry
+that comes after the connection has been returned. -/
+theorem context_only_bounds_the_handshake :
+    ∀ u ∈ ctxUses, u ∈ [
+      ("ClientWithContext", "arg:dtlsCtx", "direct"), ("ClientWithContext", "ctx.Deadline", "direct"),
+      ("DialWithContext", "arg:ClientWithContext", "direct"),
+      ("Listener.AcceptWithContext", "arg:l.acceptDTLSConn", "direct"),
+      ("Listener.AcceptWithContext", "ctx.Deadline", "direct"),
+      ("Listener.acceptDTLSConn", "ctx.Done", "direct"), ("Listener.acceptDTLSConn", "ctx.Err", "direct"),
+      ("ServerWithContext", "arg:dtls.ServerWithContext", "direct"), ("ServerWithContext", "ctx.Deadline", "direct"),
+      ("dtlsCtx", "arg:dtls.ClientWithContext", "direct")] := by decide
+
+/-- `dlScan` refuses a deadline that is cleared only on the wrapper of a *different* connection … -/
+example : dlScan [] [] [("arm", "conn", "SetDeadline"), ("wrap", "w", "dtlsConn"), ("clear", "w", "SetDeadline"),
+    ("retOk", "", "")] = false := by decide
+/-- … and accepts when the wrapper wraps the connection itself -/
+example : dlScan [] [] [("arm", "conn", "SetDeadline"), ("wrap", "w", "conn"), ("clear", "w", "SetDeadline"),
+    ("retOk", "", "")] = true := by decide
+
+end source
 
 end CJ.Props.C16
